@@ -872,9 +872,17 @@ impl<Upstream> ValidationContext<Upstream> {
                 return Ok((node, names));
             }
 
-            // Try to find the node in the cache.
+            // Try to find the node in the cache. A secure intermediate
+            // node cannot be used as the starting point: it is not a zone
+            // apex, so it does not have the keys that are needed to
+            // validate the DS records of the names below it. In that case
+            // continue towards the node of the zone that contains it.
             if let Some(node) = self.cache_lookup(&curr).await {
-                return Ok((node, names));
+                if !node.intermediate()
+                    || node.validation_state() != ValidationState::Secure
+                {
+                    return Ok((node, names));
+                }
             }
 
             names.push_front(curr.clone());
